@@ -481,8 +481,15 @@ impl<'a> Unquote<'a> {
             if str_ref.find('\\').is_some() {
                 Cow::from(self.to_string())
             } else {
-                // String is quoted but has no escapes.
-                Cow::from(&str_ref[1..str_ref.len() - 1])
+                // String is quoted but has no escapes: it ends at the closing
+                // quote, or at the end of the input if it is unterminated.
+                let inner = if self.state == UnquoteState::NotStarted {
+                    &str_ref[1..]
+                } else {
+                    str_ref
+                };
+                let end = inner.find('"').unwrap_or(inner.len());
+                Cow::from(&inner[..end])
             }
         } else {
             Cow::from(str_ref)
